@@ -52,7 +52,7 @@ def C01(V, tier):
     progs += fam
     matrix = gen.config_matrix(rng, n_local=2, n_remote=1, n_batch=2) if tier == "quick" else \
         gen.config_matrix(rng, n_local=3, n_remote=3, n_batch=3)
-    jobsuite.run_suite(V, wd, progs, matrix, "C01", perturb_us=200)
+    jobsuite.run_suite(V, wd, progs, matrix, "C01", checks=("link", "boundary", "result", "conform"), perturb_us=200)
     V.sample({"program": progs[0]["prog"], "configs": matrix[:2]})
     V.coverage["programs"] = len(progs)
     V.coverage["configs"] = [f"{json.dumps(c)} {b}" for c, b in matrix]
@@ -197,7 +197,7 @@ def C05(V, tier):
     progs += side + loops
     matrix = gen.config_matrix(rng, n_local=1, n_remote=1, n_batch=2) if tier == "quick" else \
         gen.config_matrix(rng, n_local=3, n_remote=2, n_batch=3)
-    jobsuite.run_suite(V, wd, progs, matrix, "C05", checks=("boundary",), perturb_us=200)
+    jobsuite.run_suite(V, wd, progs, matrix, "C05", checks=("boundary", "conform"), perturb_us=200)
     V.assumptions += ["FlushBatch carries no content: the grammar is applied with B erased (DESIGN.md C05)"]
 
 
@@ -262,7 +262,7 @@ def timestamped_jobs(V, wd, tier):
 
     def cfgs(p):
         return [({"mode": "local", "par": p["npar"]}, b) for b in ("single", "default", "fixed:2")]
-    jobsuite.run_suite(V, wd, progs, cfgs, "C06", checks=("boundary",), perturb_us=150)
+    jobsuite.run_suite(V, wd, progs, cfgs, "C06", checks=("boundary", "conform"), perturb_us=150)
     V.coverage["timestamped_jobs"] = len(progs) * 3
 
 
@@ -905,7 +905,7 @@ def C08(V, tier):
     rng = random.Random(seed() + 8)
     results, traces, jobs_by_id = _focused(V, tier, "C08", gen.join_programs(rng, 60 if tier == "quick" else 600),
                                            checks=("result",), perturb_us=400)
-    binary_conform(V, workdir("C08c"), traces, results, jobs_by_id)
+    jobsuite.binary_conform(V, workdir("C08c"), traces, results, jobs_by_id)
 
 
 def C09(V, tier):
@@ -913,7 +913,7 @@ def C09(V, tier):
     rng = random.Random(seed() + 9)
     results, traces, jobs_by_id = _focused(V, tier, "C09", gen.fan_programs(rng, 60 if tier == "quick" else 600),
                                            checks=("result",))
-    binary_conform(V, workdir("C09c"), traces, results, jobs_by_id)
+    jobsuite.binary_conform(V, workdir("C09c"), traces, results, jobs_by_id)
 
 
 def C16(V, tier):
@@ -1002,34 +1002,6 @@ def C10(V, tier):
         raise ToolError("vacuous: fewer than 50 state reads observed")
 
 
-def binary_conform(V, wd, traces, results, jobs_by_id):
-    """T (conformance): receive / start_out events of every replica of every two-input block of the traced jobs,
-    replayed through comp/BinaryStart.tla (trace/BinaryConform.tla).  A mismatch is DRIFT, not a verdict."""
-    from common import read_trace, split_trace_files, validate_parallel
-    import project
-    stats = {}
-    recs = []
-    for t in traces:
-        recs += list(project.binary_records(read_trace(t), results, jobs_by_id, stats))
-    if not recs:
-        V.coverage["binary_start_segments"] = 0
-        return
-    files = split_trace_files(recs, wd, "binconf", max_events=20000)
-    _, consumed, states, infos = validate_parallel("BinaryConform", files, wd)
-    drifts = [i for i in infos if i.get("drift") == "binary_start"]
-    V.coverage["states"] += states
-    V.coverage["transitions"] += states
-    V.coverage["binary_start_segments"] = V.coverage.get("binary_start_segments", 0) + stats.get("segments", 0)
-    V.coverage["binary_start_cached_segments"] = V.coverage.get("binary_start_cached_segments", 0) + stats.get("cached_segments", 0)
-    V.coverage["binary_start_segments_skipped"] = V.coverage.get("binary_start_segments_skipped", 0) + stats.get("segments_skipped", 0)
-    V.coverage["binary_start_events"] = V.coverage.get("binary_start_events", 0) + len(recs)
-    V.coverage["binary_start_drift"] = V.coverage.get("binary_start_drift", 0) + len(drifts)
-    for d in drifts[:5]:
-        V.drift.append(f"BinaryStart: replica {d['p']} of job {d['job']}: the specification expected '{d['expected']}', "
-                       f"the code did {json.dumps(d['got'])[:120]} (event {d['index']})")
-    return drifts
-
-
 def sideinput_model(V, wd, tier):
     """comp/SideInput.tla: BinaryStartReceiver with a cached side, receive timeouts, >= 2 loop producers.
     The configurations of the two repaired defects (F8, F10) must still produce their counterexamples."""
@@ -1063,7 +1035,7 @@ def C11(V, tier):
         V.add_violation(v, replay=jobs_by_id.get(v.get("job")))
     V.coverage["states"] += states
     V.coverage["transitions"] += states
-    binary_conform(V, workdir("C11c"), traces, results, jobs_by_id)
+    jobsuite.binary_conform(V, workdir("C11c"), traces, results, jobs_by_id)
     V.coverage["side_rounds_checked"] = sum(1 for r in recs if r["ev"] == "out" and r["k"] == "FR")
     V.coverage["side_items_replayed"] = sum(1 for r in recs if r["ev"] == "out" and r["k"] == "S")
     if V.coverage["side_rounds_checked"] < 20:
